@@ -406,7 +406,7 @@ def run(ctx):
     for c in cases:
         c["pieces"] = [tuple(p) for p in c["pieces"]]
     ncorpus = len(cases)
-    for _ in range(ctx.scale(500, 3000)):
+    for _ in range(ctx.scale(350, 3000)):
         cases.append(gen_case(ctx.rng))
     ctx.log("%d programs" % len(cases))
     res = evaluate(m, cases)
